@@ -508,13 +508,13 @@ def stepCore (o : Oracle) (p : Prog) (inp : Input) (i : Instr) (t : Thread) (st 
     (match stack with
      | [] => .fault .stackUnderflow st
      | v :: rest =>
-       let jump := match v with | .bool b => !b | .i64 n => n == 0 | _ => false
+       let jump := match v with | .bool b => !b | .i64 n => n == 0 | .int n => n == 0 | _ => false
        if jump then jumpTo t st rest i else .next { t with stack := rest } st)
   | .jm =>
     (match stack with
      | [] => .fault .stackUnderflow st
      | v :: rest =>
-       let jump := match v with | .bool b => b | .i64 n => n != 0 | _ => false
+       let jump := match v with | .bool b => b | .i64 n => n != 0 | .int n => n != 0 | _ => false
        if jump then jumpTo t st rest i else .next { t with stack := rest } st)
   | .jmp => jumpTo t st stack i
   | .inc | .dec =>
